@@ -25,6 +25,8 @@ RECIPES = {
     "OpText_Trace": ("OpText_Trace.cfg", {}),
     "SchemaCopy_Trace": ("SchemaCopy_Trace.cfg", {"OUT_FILE": "", "MAXON": "2"}),
     "SchemaSource_Trace": ("SchemaSource_Trace.cfg", {"OUT_FILE": ""}),
+    "Telemetry_Trace": ("Telemetry_Trace.cfg", {}),
+    "TelemetryHttp_Trace": ("TelemetryHttp_Trace.cfg", {}),
 }
 
 
